@@ -4,6 +4,8 @@ ShellCommandTrick with subprocess.Popen and kill_process replaced by a simulated
 virtual clock, explored over schedules and judged by the property's trace predicates."""
 from __future__ import annotations
 
+import re
+
 import detsched
 
 detsched.install()
@@ -235,18 +237,38 @@ def make_trick_run(kind, plan, line_preempt=False):
                 trick = sched.create(lambda: tricks.ShellCommandTrick(
                     "cmd", wait_for_process=plan.get("wait", False), drop_during_process=plan.get("drop", False)))
 
+            in_stop, workers, tid_of = set(), set(), {}
+            if kind == "restart":
+                orig_stop_process = trick._stop_process
+
+                def stop_process_probe():
+                    me = tid_of.get(detsched._real["get_ident"]())
+                    if me in in_stop:
+                        workers.add(me)
+                    return orig_stop_process()
+
+                trick._stop_process = stop_process_probe
+
             def body(i, ops):
                 def fn():
+                    tid_of[detsched._real["get_ident"]()] = i
                     for op in ops:
                         if op[0] == "start":
                             trick.start()
-                            log.append(f"started@{table.clock()}")
+                            log.append(f"started:{i}@{table.clock()}")
                         elif op[0] == "event":
                             trick.dispatch(FileModifiedEvent("/x/f.py"))
                             log.append(f"event-returned:{i}@{table.clock()}")
                         elif op[0] == "stop":
+                            # a stop() that finds the trick already stopping returns at once ("the body is only run
+                            # once"): the property's obligations attach to the call that does the work, recognised by
+                            # its call of _stop_process
+                            in_stop.add(i)
                             trick.stop()
-                            log.append(f"stop-returned:{i}@{table.clock()}")
+                            in_stop.discard(i)
+                            worker = i in workers
+                            workers.discard(i)
+                            log.append(f"{'stop-returned' if worker or kind != 'restart' else 'stop-noop'}:{i}@{table.clock()}")
                         elif op[0] == "sleep":
                             time.sleep(op[1] * TICK)
                 return fn
@@ -261,9 +283,33 @@ def make_trick_run(kind, plan, line_preempt=False):
         result = {"log": log, "failure": failure, "uncaught": list(sched.uncaught), "alive_end": table.alive_all(),
                   "procs": dict(table.procs), "schedule": [t[3] for t in sched.trace], "stuck": list(sched.stuck),
                   "end_clock": table.clock()}
+        if kind == "restart" and not line_preempt:
+            # the same run in the vocabulary of WD.Rst: threads by creation order, pids from 0, times in ms
+            idx = {t.name: k for k, t in enumerate(sched.order)}
+            ms = lambda clk: int(round((clk - BASE) * 1000))
+            steps = " ".join(f"{ms(clk)}:{','.join(str(idx[n]) for n in en)}>{idx[ch]}" for _n, clk, en, ch, _l in sched.trace)
+            hist = " ".join(re.sub(r"^(spawn|kill):(\d+)", lambda m: f"{m.group(1)}:{int(m.group(2)) - 1000}", e) for e in log)
+            alldone = failure is None and all(t.status == "done" for t in sched.order)
+            result["line"] = (f"{steps} | {hist} | alive=[{','.join(str(p - 1000) for p in table.alive_all())}] "
+                              f"restarts={trick.restart_count} threads={len(sched.order)} done={int(alldone)} clock={ms(sched.clock)}")
+            result["sched_idx"] = [idx[t[3]] for t in sched.trace]
         return sched, result
 
     return run_one
+
+
+def rst_request(plan, schedule):
+    """the plan and the observed schedule as one line for the Lean driver (`rst`, WD.Driver.Rst)"""
+    ms = lambda ticks_: int(round(ticks_ * TICK * 1000))
+    toks = [f"rst {ms(plan.get('debounce', 0))} 1000 {ms(plan.get('kill_delay', 0))} {int(plan.get('restart_on_exit', True))}"]
+    lifes = plan.get("lifetimes", [])
+    toks += [f"L {len(lifes)}"] + ["-" if x is None else str(ms(x)) for x in lifes]
+    toks.append(f"T {len(plan['threads'])}")
+    for ops in plan["threads"]:
+        toks.append(str(len(ops)))
+        toks += [f"s{ms(op[1])}" if op[0] == "sleep" else op[0] for op in ops]
+    toks += [f"S {len(schedule)}"] + [str(x) for x in schedule]
+    return " ".join(toks)
 
 
 def judge_restart(plan, result):
@@ -373,12 +419,40 @@ def run(res, tier, lean, proof_breaks=(), build_log=""):
                    "threads": [[("event",), ("event",)], [("sleep", 1), ("event",), ("sleep", 1), ("event",)]]}),
         ("shell", {"lifetimes": [3, 3, 3], "drop": True, "threads": [[("event",), ("sleep", 1), ("event",), ("sleep", 4), ("event",)]]}),
     ]
+    # random plans: thread 0 starts, sleeps and finally stops; the others deliver events (and may stop too) at random times
+    for _ in range(40 if thorough else 12):
+        n_other = r.randint(1, 2)
+        t0 = [("start",)]
+        for _k in range(r.randint(0, 2)):
+            t0.append(r.choice([("event",), ("sleep", r.choice([1, 2, 4, 5]))]))
+        t0 += [("sleep", r.choice([2, 4, 8, 12])), ("stop",)]
+        threads = [t0]
+        for _k in range(n_other):
+            ops = [("sleep", r.choice([0, 1, 2, 4]))] if r.random() < 0.8 else []
+            for _j in range(r.randint(1, 3)):
+                ops.append(r.choice([("event",), ("event",), ("sleep", r.choice([1, 2, 4, 8]))]))
+            if r.random() < 0.25:
+                ops += [("sleep", r.choice([1, 4, 8])), ("stop",)]
+            threads.append(ops)
+        plans.append(("restart", {"lifetimes": [r.choice([None, None, 2, 4, 8]) for _k in range(8)],
+                                  "debounce": r.choice([0, 0, 2, 4]), "kill_delay": r.choice([0, 0, 2, 3, 12]),
+                                  "restart_on_exit": r.random() < 0.85, "threads": threads, "random": True}))
+    rlines, rimpl, rmeta = [], [], []
     for kind, plan in plans:
         run_one = make_trick_run(kind, plan)
         info = {}
-        runs = list(explore.dfs(run_one, 2, 600 if thorough else 150, info)) + list(explore.random_runs(run_one, r, 100 if thorough else 30))
+        if plan.get("random"):
+            runs = list(explore.dfs(run_one, 1, 60 if thorough else 15, info)) + list(explore.random_runs(run_one, r, 30 if thorough else 10))
+        else:
+            runs = list(explore.dfs(run_one, 2, 600 if thorough else 150, info)) + list(explore.random_runs(run_one, r, 100 if thorough else 30))
+        for sched, result in runs:
+            if "line" in result:
+                rlines.append(rst_request(plan, result["sched_idx"]))
+                rimpl.append(result["line"])
+                rmeta.append((plan, result))
         # line-level preemption: interleavings inside the tricks' own (lock-free) check-then-act sequences
-        runs += list(explore.random_runs(make_trick_run(kind, plan, line_preempt=True), r, 150 if thorough else 40, 0.15))
+        runs += list(explore.random_runs(make_trick_run(kind, plan, line_preempt=True), r,
+                                         (30 if thorough else 6) if plan.get("random") else (150 if thorough else 40), 0.15))
         for sched, result in runs:
             res.count()
             res.bump(f"{kind}_runs")
@@ -387,6 +461,20 @@ def run(res, tier, lean, proof_breaks=(), build_log=""):
             v = (judge_restart if kind == "restart" else judge_shell)(plan, result)
             if v:
                 tjudged.append((kind, plan, result, v))
+    # tie of WD.Rst: every run explored without line-level preemption is replayed in the model on the same schedule
+    routs = lean.run(rlines) if rlines else []
+    rbad = [(l, i, o, plan) for l, i, o, (plan, _res) in zip(rlines, rimpl, routs, rmeta) if i != o]
+    res.cov["restart_runs_replayed_in_model"] = len(rlines)
+    if rlines:
+        res.sample({"request": rlines[0], "implementation": rimpl[0], "model": routs[0]})
+    if rbad and not any(k == "restart" for k, *_ in tjudged):
+        rbad.sort(key=lambda b: len(b[0]))
+        l, i, o, plan = rbad[0]
+        res.violation("correspondence WD.Rst <-> AutoRestartTrick broken (theorems C18.one_child_at_a_time etc. no longer tied "
+                      "to the code); every explored run (schedules within the preemption bound, random, line-level preemption) "
+                      "was judged against the property's trace predicates and none failed",
+                      {"correspondence": "harness/c18.py vs lean WD.Rst", "plan": plan, "request": l, "implementation": i,
+                       "model": o, "mismatching_runs": len(rbad)}, no_input=True, signature="c18-rst-model-mismatch")
     if bad and not judged:
         # correspondence broken, no explored run violated the property: search on the real code with the judge as oracle
         searched = 0
